@@ -41,6 +41,10 @@ Definition parse_f32 (buf : list Z) : option Q :=
         else None
     end.
 
+(* the hypothesis of C17_parse_total holds of this instance *)
+Example parse_f32_empty : parse_f32 [] = None.
+Proof. reflexivity. Qed.
+
 (* char::is_whitespace (Unicode White_Space) *)
 Definition is_ws (c : Z) : bool :=
   ((9 <=? c) && (c <=? 13)) || (c =? 32) || (c =? 133) || (c =? 160) || (c =? 5760)
